@@ -8,7 +8,7 @@ Driver for the enum area: decodes one case, prints the region and the model / sp
                     (jsons (str "s")|null|other …) (sqls (bytes "s")|other …) (ints (<TV kind> v…)…) (encs v…))
   (case <id> c12v   (type …) (blocks B…) (target v) (strs "s"…))
   (case <id> c12t   (type …) (blocks B…) (ints (<TV kind> v…)…))
-  (case <id> c14    (type …) (blocks B…) (hi N) (neg v…))
+  (case <id> c14    (type …) (blocks B…) (flags json text sql) (hi N) (neg v…))
   (case <id> c14raw (type …) (blocks B…))
   (case <id> c01enum (flags …) (mode type|list|file|star) (types ("T" <kind> [sel])…) (blocks B…) [(locals B…)] [(idents "n"…)])      -- C01 leg
   B = (b S…)   S = (s (n "A" "B"…) (t "T" [q])|(c)|(e -|"T") (v 1 2…))     q: the type is not a plain identifier
@@ -288,9 +288,13 @@ def c12vCase (id : String) (payload : List Sexp) : List String :=
 def showBV {w} (signed : Bool) (x : BitVec w) : String := toString (Bit.decOf signed x)
 
 def c14Lines {w : Nat} (signed : Bool) (t : Bit.Table w) (strf : BitVec w → Str)
-    (has : BitVec w → BitVec w → Bool) (add rem : BitVec w → BitVec w → BitVec w) (hi : Nat) (negs : List Int) : List (String × String) :=
+    (has : BitVec w → BitVec w → Bool) (add rem : BitVec w → BitVec w → BitVec w) (hi : Nat) (negs : List Int)
+    (hist : List String) : List (String × String) :=
   let xs := (List.range hi).map (fun n => BitVec.ofNat w n)
-  [("strs", "|".intercalate (xs.map (fun x => showStr (strf x))))]
+  let sweep := "|".intercalate (xs.map (fun x => showStr (strf x)))
+  [("strs", sweep)]
+  -- call histories (descending sweep, through each encoder, ascending again): String() is a function of the value
+  ++ hist.map (fun k => (k, sweep))
   ++ (if negs.isEmpty then [] else [("nstrs", "|".intercalate (negs.map (fun v => showStr (strf (BitVec.ofInt w v)))))])
   ++ t.flatMap (fun e =>
       let f := e.1
@@ -298,13 +302,14 @@ def c14Lines {w : Nat} (signed : Bool) (t : Bit.Table w) (strf : BitVec w → St
        (s!"add:{showBV signed f}", ",".intercalate (xs.map (fun x => showBV signed (add x f)))),
        (s!"rem:{showBV signed f}", ",".intercalate (xs.map (fun x => showBV signed (rem x f))))])
 
-def c14At (w : Nat) (i : Input) (cs : List Const) (hi : Nat) (negs : List Int) : List (String × String) × List (String × String) :=
+def c14At (w : Nat) (i : Input) (cs : List Const) (hi : Nat) (negs : List Int) (hist : List String) :
+    List (String × String) × List (String × String) :=
   let sg := i.kind.signed
   let tm : Bit.Table w := Bit.table i.T cs
   let ts : Bit.Table w := Bit.table i.T (specSorted i.decl)
-  (c14Lines sg tm (Bit.string sg tm) Bit.has Bit.add Bit.remove hi negs,
+  (c14Lines sg tm (Bit.string sg tm) Bit.has Bit.add Bit.remove hi negs hist,
    c14Lines sg ts (if Bit.WFt sg ts then Bit.specString sg ts else Bit.specGeneral sg ts)
-     Bit.specHas Bit.specAdd Bit.specRemove hi negs)
+     Bit.specHas Bit.specAdd Bit.specRemove hi negs hist)
 
 def c14Case (id : String) (payload : List Sexp) : List String :=
   let p := Sexp.list (.atom "p" :: payload)
@@ -313,6 +318,9 @@ def c14Case (id : String) (payload : List Sexp) : List String :=
   | some i =>
     let hi := ((intsOf p "hi").headD 0).toNat
     let negs := intsOf p "neg"
+    let fl := (p.field? "flags").getD (.list [])
+    let hist := ["strs2"] ++ (if fl.hasFlag "text" then ["tstrs"] else []) ++ (if fl.hasFlag "json" then ["jstrs"] else [])
+      ++ (if fl.hasFlag "sql" then ["vstrs"] else []) ++ ["strs3"]
     let hd := [("exit", "0"), ("compile", "ok")]
     match gen i.kind i.T i.scanned with
     | .skipped => both id [("exit", "0"), ("file", "none")] hd (regionBit i)
@@ -321,10 +329,10 @@ def c14Case (id : String) (payload : List Sexp) : List String :=
       if !compiles false i.T i.decl cs then both id [("exit", "0"), ("compile", "error")] hd (regionBit i)
       else
         let (m, s) := match i.kind.bits with
-          | 8 => c14At 8 i cs hi negs
-          | 16 => c14At 16 i cs hi negs
-          | 32 => c14At 32 i cs hi negs
-          | _ => c14At 64 i cs hi negs
+          | 8 => c14At 8 i cs hi negs hist
+          | 16 => c14At 16 i cs hi negs hist
+          | 32 => c14At 32 i cs hi negs hist
+          | _ => c14At 64 i cs hi negs hist
         both id (hd ++ m) (hd ++ s) (regionBit i)
 
 /-- the emitted -bit file as it is: does it compile? -/
